@@ -23,7 +23,11 @@ def seeds():
         ch = m.get('checks', {}).get(prop, {})
         rules = ch.get('rules', [])
         r = ', '.join('`%s`' % x for x in rules[:3]) + (' (+%d)' % (len(rules) - 3) if len(rules) > 3 else '')
-        out.append('| %s | %s | %s | %s |' % (sid, first_line(d + '/patch.diff').replace('rust/ommx/src/', ''), r if ch.get('exit') == 1 else '**missed**', m.get('history', '')))
+        hist = m.get('history', '')
+        fr = m.get('first_run')
+        if not hist and fr is not None and fr.get('exit') != 1: hist = 'first run: missed; rule(s) added, then reported'
+        if m.get('round'): hist = ('round %s. ' % m['round']) + hist
+        out.append('| %s | %s | %s | %s |' % (sid, first_line(d + '/patch.diff').replace('rust/ommx/src/', ''), r if ch.get('exit') == 1 else '**missed**', hist))
     return '\n'.join(out)
 
 
@@ -38,7 +42,9 @@ def refactors():
         if not ch: verdict = 'not run'
         elif all(v.get('exit') == 0 for v in ch.values()): verdict = 'silent (%s)' % ', '.join(sorted(ch))
         else: verdict = '**alarm**: ' + ', '.join('%s: %s' % (p, ', '.join('`%s`' % x for x in (v.get('rules') or [])[:2]) + (' …' if len(v.get('rules') or []) > 2 else '')) for p, v in sorted(ch.items()) if v.get('exit') != 0)
-        out.append('| %s | %s | %s | %s |' % (sid, first_line(d + '/patch.diff').replace('rust/ommx/src/', ''), verdict, m.get('exposure', m.get('note', ''))))
+        note = m.get('exposure', m.get('note', ''))
+        note = ('round %s; first run: %s. ' % (m.get('round', '?'), 'ALARM' if m.get('first_run_alarm') else 'silent')) + note
+        out.append('| %s | %s | %s | %s |' % (sid, first_line(d + '/patch.diff').replace('rust/ommx/src/', ''), verdict, note))
     return '\n'.join(out)
 
 
